@@ -889,7 +889,15 @@ class LuaASTEchoWriter(BaseLuaWriter):
                 else:
                     for t in self._walk(exp):
                         yield t
-                    yield self._get_text(node, b'then')
+                    then_keyword = b'then'
+                    if not self._args.get('ignore_tokens'):
+                        # The parser also accepts "if (cond) do ... end".
+                        spaces = self._get_code_for_spaces(node)
+                        if self._tokens[self._pos].matches(
+                                lexer.TokKeyword(b'do')):
+                            then_keyword = b'do'
+                        yield spaces
+                    yield self._get_text(node, then_keyword)
                     self._indent += 1
                 for t in self._walk(block):
                     yield t
